@@ -272,6 +272,21 @@ func (e *Engine) registerDomain() {
 		name := mustConstStr(c.args[0])
 		return c.ret(IfaceV{t: c.e.namedType(jwxJWK, "Set"), v: OpaqueV{kind: "keyset", data: name}})
 	})
+	r(vnPkg+".JWKSDoc", func(c *CallCtx) []Outcome { return c.ret(constStr("jwks:" + mustConstStr(c.args[0]))) })
+	r(jwxJWK+".Parse", func(c *CallCtx) []Outcome {
+		b, ok := c.args[0].(BytesV)
+		if !ok {
+			unm("jwk.Parse on %T", c.args[0])
+		}
+		cs, isC := b.s.Const()
+		if !isC {
+			unm("jwk.Parse on a symbolic document (harnesses use vn.JWKSDoc)")
+		}
+		if strings.HasPrefix(cs, "jwks:") {
+			return c.ret(TupleV{IfaceV{t: c.e.namedType(jwxJWK, "Set"), v: OpaqueV{kind: "keyset", data: cs[5:]}}, IfaceV{}})
+		}
+		return c.ret(TupleV{IfaceV{}, c.e.newError(c.st, "jwk parse")})
+	})
 	r(vnPkg+".SameKeySet", func(c *CallCtx) []Outcome {
 		a, b := c.args[0].(IfaceV), c.args[1].(IfaceV)
 		if a.t == nil || b.t == nil {
